@@ -1,0 +1,7 @@
+//go:build verif
+
+package prolog
+
+//@ -- a query is read by a parser made for the interpreter's own VM, hence with the operator table op/3 has built in it (C18).
+//@ -- (the body goes on with a goroutine, which is outside the subset: only the two calls before it are checked)
+//@ -- (*Interpreter).QueryContext: its contract is in verif_contracts_c15api.go (it also carries C18: the query is read by a parser made for this interpreter's vm)
